@@ -47,10 +47,15 @@ CHECKS = {
    "The relayed Route list must equal the model's remainder byte for byte and the destination must follow from consuming exactly the own entry; only cases that carry a Route header are judged (a precedence bug elsewhere does not alarm C13).",
    "Entries contain no ',' inside <> (recorded known finding of C14).",
    "5 C13"),
- "C05": ("inpkg", "exploration",
+ "C04": ("wire", "exploration",
+   "dialog reference model (pins keyed by Call-ID and the unordered tag/URI pairs) checked against recorded wire histories of the real -race binary; rotation tracked so that a probe can never hit the pinned backend by coincidence",
+   "Interleaved histories of 1-50 dialogs over services with 2-6 UDP/TCP backends: initial INVITE or backend-issued SUBSCRIBE, answers from the chosen backend's own address, then in-dialog requests of every method in both orientations with unrelated traffic in between; each probe must be seen exactly once and at the pinned backend.",
+   "dialogTimeout stays at its 1200 s default so that lifetime never interferes (C15 decides lifetime).",
+   "5 C04"),
+ "C05": ("inpkg+wire", "exploration",
    "epoch/window rotation monitor over exhaustively enumerated add/remove/dispatch sequences; porcupine linearizability check of recorded concurrent histories against a membership model; race detector",
    "Drives the real round-robin structure with recording backend doubles: every sequence up to length 5 (quick) / 7 (thorough) over 4 addresses plus random long ones under a strict-rotation monitor, and concurrent histories (dispatches parked inside Send while members are removed) checked by porcupine.",
-   "Strict evenness is demanded inside an epoch only; a dispatch overlapping a membership change must reach a backend that was a member at some point of its interval (the property demands no more).",
+   "Wire part: every unpinned request of the dialog histories must land exactly once on the backend that follows the previous unpinned one in configuration order. Strict evenness is demanded inside an epoch only; a dispatch overlapping a membership change must reach a backend that was a member at some point of its interval (the property demands no more).",
    "5 C05"),
  "C10": ("inpkg", "exploration",
    "differential monitor (clean vs. recycled receive buffer) through the real UDP parse loop with an 'image of this datagram alone' oracle; porcupine ownership check of the real buffer pool; race detector",
@@ -62,10 +67,10 @@ CHECKS = {
    "Feeds the real TCP receive loop through a scripted connection that returns exactly the chosen segments and compares count, order, start lines, header names/values and bodies with the abstract sequence.",
    "Streams stay inside the quantifier (Content-Length present, no folded lines).",
    "5 C11"),
- "C15": ("inpkg", "exploration",
+ "C15": ("inpkg+wire", "exploration",
    "online monitor with bracketed monotonic timestamps over random pin/lookup/terminate/sleep histories on the real pin table (20-80 ms timeouts), plus purge-obligation monitor on table contents",
    "Verdicts only where the measured brackets prove a lookup to lie inside (must be pinned) or outside (must be gone) the lifetime; purge bound derived from the property: an entry expired more than one timeout before an add must be gone after that add.",
-   "Table-level; dissolution by BYE / NOTIFY is exercised by the C04/C15 wire histories when present. 2 ms slack on the purge bound.",
+   "Wire part: timed histories on the real binary (dialogTimeout 2 s, Expires absent/smaller/larger, BYE answered with any final class, NOTIFY active/terminated/terminated;reason) decided by three back-to-back probes (one socket = pinned, three distinct = forgotten). 2 ms slack on the in-package purge bound.",
    "5 C15"),
  "C19": ("inpkg", "fault_enumeration",
    "resolution outcomes injected at the resolver's notification entry point, enumerated exhaustively (length <= 3 quick / 5 thorough) and randomly; membership model monitor on locked accessors, dispatch probes on real loopback sockets behind the real proxy loop, behavioural attribution probes",
